@@ -1,8 +1,8 @@
 """C07 - cycle-bounded local search (MGM, MGM2, DSA) finishes after exactly stop_cycle cycles."""
 from ..algocheck import run_algo_check, replay  # noqa: F401
 
-SMALL = ["single", "unary1", "pair", "parallel", "unarypair", "isolated", "isounary", "path3", "triangle", "tern", "ternpair"]
-LARGE = ["twocomp", "path4", "star4", "cycle4", "tritail", "path5", "tern5", "path3d3", "pair3"]
+SMALL = ["single", "unary1", "pair", "parallel", "unarypair", "upath", "uall", "isolated", "isounary", "path3", "star4", "triangle", "tern", "ternpair"]
+LARGE = ["twocomp", "path4", "cycle4", "tritail", "path5", "tern5", "path3d3", "pair3"]
 CLAUSES = {"EXC", "quiet_but_not_all_finished", "C07_finished_at_wrong_cycle"}
 
 
